@@ -125,8 +125,11 @@ def o_c02(story, recs, report):
         for (t, tg, a) in (v["choices"] if r["obs"][0] != "exc" and v["cur"] == v["pid"] and not taint[k] else []):
             cid = f"{v['cur']}:{t}:{tg}"
             if cid in v["used"]:
-                c = find_choice(ps.get(v["pid"], {}), t, tg)
-                if c is not None and not c.get("sticky", True):
+                # (a sticky choice may have the same text and target as a used one-time choice: it is rightly offered)
+                same = [c for c in ps.get(v["pid"], {}).get("choices", [])
+                        if c["target"] == tg and isinstance(c["text"], list) and all(x["type"] == "text" for x in c["text"])
+                        and "".join(x["value"] for x in c["text"]) == t]
+                if same and not any(c.get("sticky", True) for c in same):
                     report("one-time-reoffered", f"one-time choice {t!r} offered again from {v['cur']}", k)
 
 
